@@ -344,7 +344,8 @@ def engine_check(pid, fams, tier_, maxruns, level_note="", props=None, extra_cov
                 import random
                 random.Random(sd).shuffle(scen2)
                 scen2 = scen2[:room]
-            scen2 = kept + scen2
+            # statements whose commands only the in-process model runner can play (content-dependent header sets, split outputs)
+            scen2 = [s2 for s2 in kept + scen2 if not any(("split" in st) or ("hsel" in st) for st in s2["stmts"])]
             for s2 in scen2:
                 s2["id"] = "h2:" + s2["id"]
                 by_id[s2["id"]] = s2
